@@ -116,7 +116,7 @@ def run(ctx):
             # ---- text grammar --------------------------------------------------------------------------
             if kinds == ["lenenc_str"]:
                 val = ems[0].value
-                sh = fmtargs.format_shape(val)
+                sh = fmtargs.builder_shape(p, val) or fmtargs.format_shape(val)
                 if ty in ("[u8]",):
                     ctx.ob("C06.text-grammar", T.is_param(T.peel(val), 1), "byte strings must be written whole (got %s)" % term_str(val)[:60], fn=b.path, construct="bytes-whole")
                     continue
@@ -231,8 +231,15 @@ def _frac_nonzero(b, p, accessor):
         t = b.term(blk)
         if t["k"] == "switch" and "0" in t["vals"]:
             v = p.origin_op(t["discr"], i)
+            neg = False
+            while isinstance(v, tuple) and v[0] == "un" and v[1] == "Not":
+                v, neg = v[2], not neg
             if isinstance(v, tuple) and v[0] == "bin" and v[1] in ("Ne", "Eq") and T.is_const_int(v[3], 0) and acc(v[2]) == accessor:
-                truth = p.blocks[i + 1] != t["tgts"][t["vals"].index("0")]
+                truth = (p.blocks[i + 1] != t["tgts"][t["vals"].index("0")]) != neg
                 nz = truth if v[1] == "Ne" else not truth
+                res = nz if res is None else res
+            elif isinstance(v, tuple) and v[0] != "bin" and acc(v) == accessor and not neg:
+                # `match x { 0 => .., n => .. }`: a switch on the value itself
+                nz = p.blocks[i + 1] != t["tgts"][t["vals"].index("0")]
                 res = nz if res is None else res
     return res
